@@ -758,8 +758,11 @@ def jobs(tier):
         days = (n - 1) * r
         pos = [(d, t) for d in range(days) for t in range(n)]
         chunk = 2 if r > 1 or n > 4 else 4
+        if n >= 6:
+            chunk = 1       # six teams: the positions on the first days take 500-1000 s each under load (measured); one position per job, generous limits
         for k in range(0, len(pos), chunk):
-            js.append(Job(f"bye/n{n}/r{r}/{k}", job_bye, dict(n=n, rounds=r, positions=pos[k:k + chunk], timeout_s=900), "bye_increases", 2000))
+            js.append(Job(f"bye/n{n}/r{r}/{k}", job_bye, dict(n=n, rounds=r, positions=pos[k:k + chunk], timeout_s=900 if n < 6 else 3000), "bye_increases",
+                          2000 if n < 6 else 3300, weight=1 if n < 6 else 6))
     js.append(Job("bye-whole/n2/r2", job_bye, dict(n=2, rounds=2, positions=[(0, 0), (0, 1), (1, 0), (1, 1)], whole=True), "bye_increases", 300))
     names = sorted(T.shipped_settings(4))
     for nm in (names if tier == "thorough" else names):
